@@ -98,6 +98,7 @@ static void run_case(vf::Ctx& ctx, const Fac& fac, int input_kind)
     }
     vfh::sink().reset_counts();
     // (counter keys used inside the measured region exist before it, so that the harness allocates nothing there)
+    ctx.count("garbage_output_runs", 0); ctx.count("garbage_output_runs_ending_in_an_exception", 0);
     ctx.count("faults_thrown/derived-from-std::exception", 0); ctx.count("faults_thrown/plain-struct", 0); ctx.count("faults_thrown/enum-value", 0);
 #ifdef VF_HAVE_ASAN
     const size_t bytes0 = __sanitizer_get_current_allocated_bytes();
@@ -176,6 +177,35 @@ static void run_case(vf::Ctx& ctx, const Fac& fac, int input_kind)
             pairs++;
         }
     }
+    // a transient defect instead of an exception: at application k the operator hands back NaN in every component. What the library does with that is its
+    // own business (it may throw from one of its own operators or kernels, or return) - but when the defect is gone, the same solver and operator objects
+    // must reproduce the baseline: nothing that happened during the faulted run may stick to them
+    long garbage = 0, garbage_threw = 0;
+    for (int which = 0; which < (int) ctls.size(); which++)
+    {
+        const long step = std::max(1L, N[which] / (ctx.thorough ? 120 : 40));
+        for (long k = 1; k <= N[which]; k += (k <= 6 ? 1 : step))
+        {
+            for (auto* c : ctls) { c->reset(); c->disarm(); }
+            ctls[which]->garbage_at = k;
+            bool threw = false;
+            std::string other;
+            try { es->init(); es->compute(sel, maxit, tol, srt); }
+            catch (const std::exception&) { threw = true; }
+            catch (...) { threw = true; other = "not a std::exception"; }
+            ctls[which]->disarm();
+            garbage++;
+            if (threw) garbage_threw++;
+            if (!other.empty()) ctx.violation(key("garbage-output/undocumented-exception-type"), info().kv("operator", which == 0 ? "A" : "B").kv("garbage_at", k).str());
+            Snapshot s;
+            const std::string o = clean_run(s);
+            if (o != "ok" || !(s == base))
+                ctx.violation(key("recovery-after-nonfinite-operator-output-differs"), info().kv("operator", which == 0 ? "A" : "B").kv("garbage_at", k).kv("of", N[which]).kv("faulted_run_threw", threw)
+                                                                                           .kv("outcome", o).kv("differs_in", o == "ok" ? base.diff(s) : "outcome").str());
+        }
+    }
+    ctx.count("garbage_output_runs", garbage);
+    ctx.count("garbage_output_runs_ending_in_an_exception", garbage_threw);
 #ifdef VF_HAVE_ASAN
     const size_t bytes1 = __sanitizer_get_current_allocated_bytes();
     if (bytes1 != bytes0) ctx.violation(key("allocated-bytes-grew-over-fault-cycles"), info().kv("before", (long) bytes0).kv("after", (long) bytes1).str());
